@@ -437,6 +437,9 @@ pub struct ReplyVals {
     pub v2: u64,
     pub bytes_seed: u8,
     pub with_file: bool,
+    /// != 0: the conforming peer writes the reply in two pieces (descriptors with the first), split at a monotone-mapped offset
+    #[serde(default)]
+    pub split: u16,
 }
 
 /// the reply a conforming back end sends (bytes, descriptor kinds) and the value the call must return
@@ -498,7 +501,7 @@ pub fn queue_index() -> impl Strategy<Value = u32> {
 }
 
 pub fn reply_vals() -> impl Strategy<Value = ReplyVals> {
-    (lat64(), lat64(), any::<u8>(), any::<bool>()).prop_map(|(v, v2, bytes_seed, with_file)| ReplyVals { v, v2, bytes_seed, with_file })
+    (lat64(), lat64(), any::<u8>(), any::<bool>(), prop_oneof![2 => Just(0u16), 1 => Just(1u16), 1 => any::<u16>()]).prop_map(|(v, v2, bytes_seed, with_file, split)| ReplyVals { v, v2, bytes_seed, with_file, split })
 }
 
 pub fn op_strategy() -> BoxedStrategy<FeOp> {
